@@ -71,6 +71,14 @@ def c14 (args res : List String) : Verdict :=
                   | [k, v] => match k.toNat?, v.toNat? with | some k, some v => some (k, v) | _, _ => none
                   | _ => none
               let newOpt := if optS = "-" then [] else (optS.splitOn ",").filterMap (·.toNat?)
+              -- the optimistic pick is the harness's here, and it is made on an earlier run of the prefix: the client's own
+              -- random choices at the timer ticks may have gone another way this time. A pick that is not a choked, interested
+              -- peer now is outside the property's quantifier (`COp.admissible`; the client itself never makes one: tick
+              -- theorems): the history ends here, verified up to this point.
+              let pickOk := newOpt.all fun a => match s.find? (·.addr = a) with
+                | some p => p.amChoked && p.interested
+                | none => false
+              if !pickOk then some (vOk "hist-ends-at-an-inadmissible-harness-pick") else
               let rate := fun a => ((rates.find? (·.1 = a)).map (·.2)).getD 0
               -- impl output: R[order][map]snap
               let parts := out.splitOn "]"
